@@ -130,11 +130,22 @@ def judge(chk, db, q, sql, step, case, tags, prop_sig_extra=None):
             chk.count("schema_value_mismatch_seen")
         return "ok"
     # disagreement: try each deviation switch whose trigger fired in the specification run (singly, then jointly)
+    # (a deviation can expose the trigger of another one - a row kept by the two-valued IN now evaluates a correlated COUNT over
+    # an empty set - so triggers seen in deviating runs extend the candidate set; at most 2^3 - 1 combinations)
+    import itertools as _it
     fired = [sw for sw, (trigger, finding) in SWITCHES.items() if trigger in spec["triggers"]]
-    combos = [(sw,) for sw in fired] + ([tuple(fired)] if len(fired) > 1 else [])
+    tried = set()
     undecidable = False
-    for combo in combos:
+    while True:
+        combos = [c for r in range(1, len(fired) + 1) for c in _it.combinations(fired, r) if c not in tried]
+        if not combos:
+            break
+        combo = combos[0]
+        tried.add(combo)
         dev = model_eval(db, q, switches=combo)
+        for sw, (trigger, finding) in SWITCHES.items():
+            if trigger in dev.get("triggers", ()) and sw not in fired:
+                fired.append(sw)
         if dev["kind"] == "unspecified":
             undecidable = True
         if dev["kind"] == "rows":
